@@ -59,7 +59,7 @@ func concPool(r *rng, n int, accum bool) []concInput {
 	for i := 0; i < n; i++ {
 		kk := k
 		kk.records = 1 + r.intn(40)
-		data := frame(randomStream(r, kk), defaultFrame())
+		data := frame(randomStream(r, kk), randFrame(r))
 		kind := []string{"decode", "decode", "chained", "integ", "header"}[i%5]
 		pool = append(pool, concInput{kind: kind, data: data})
 	}
@@ -68,7 +68,7 @@ func concPool(r *rng, n int, accum bool) []concInput {
 	for i, recs := range []int{500, 700, 2500, 6000, 600, 3000, 800, 5000} {
 		kk := k
 		kk.records = recs
-		data := frame(randomStream(r, kk), defaultFrame())
+		data := frame(randomStream(r, kk), randFrame(r))
 		kind := []string{"integ", "integ", "integ", "decode", "chained", "decode", "header", "integ"}[i%8]
 		pool = append(pool, concInput{kind: kind, data: data})
 	}
